@@ -11,15 +11,19 @@ Print Assumptions Props.C08.C08_unsupported_type_never_parses.
 Goal forall (uc : unicode) (tstr : str -> option ty) (T : list str),
     (forall attrs, is_skipped T attrs = skipped8 T attrs) ->
   forall it : item,
-    item_unsupported uc tstr T it = true -> known_C08 T it = None ->
+    item_unsupported uc tstr T it = true ->
     is_ok (Proofs.C08.parse_leaf8 uc tstr T it) = false.
 Proof. exact Props.C08.C08_unsupported_item_rejected. Qed.
 Print Assumptions Props.C08.C08_unsupported_item_rejected.
 Goal forall (uc : unicode) (tstr : str -> option ty) (it : item),
-    item_unsupported uc tstr [] it = true -> known_C08 [] it = None ->
+    item_unsupported uc tstr [] it = true ->
     is_ok (Proofs.C08.parse_leaf8 uc tstr [] it) = false.
 Proof. exact Props.C08.C08_unsupported_item_rejected_no_target. Qed.
 Print Assumptions Props.C08.C08_unsupported_item_rejected_no_target.
+Goal forall (uc : unicode) (tstr : str -> option ty) (attrs : list attr) (ident : str) (t : ty) (e : cexpr) (c : rconst),
+    parse_const uc tstr attrs ident t e = Ok (ItConst c) -> const_value8 e = Some (cvalue c).
+Proof. exact Props.C08.C08_const_value_faithful. Qed.
+Print Assumptions Props.C08.C08_const_value_faithful.
 Goal forall uc tstr T attrs ident gens l1 f l2, is_skipped T (f_attrs f) = true ->
     parse_struct uc tstr T attrs ident gens (FNamed (l1 ++ f :: l2)) =
     parse_struct uc tstr T attrs ident gens (FNamed (l1 ++ l2)).
@@ -29,9 +33,31 @@ Goal forall uc tstr T attrs ident gens l1 v l2, is_skipped T (v_attrs v) = true 
     parse_enum uc tstr T attrs ident gens (l1 ++ v :: l2) = parse_enum uc tstr T attrs ident gens (l1 ++ l2).
 Proof. exact Props.C08.C08_skipped_variant_is_as_absent. Qed.
 Print Assumptions Props.C08.C08_skipped_variant_is_as_absent.
-Goal let it := IConst [Proofs.C08.a_typeshare] (lit "X") (TPath [] (lit "i32") [])
-                   {| ce_first_lit := Some (CInt (Some (Zpos 5))); ce_plain := None |} in
-  item_unsupported uc_exec (fun _ => None) [] it = true /\ known_C08 [] it <> None /\
-  is_ok (Proofs.C08.parse_leaf8 uc_exec (fun _ => None) [] it) = true.
-Proof. exact Props.C08.C08_const_expr_refuted. Qed.
-Print Assumptions Props.C08.C08_const_expr_refuted.
+Goal (forall e, In e [CENeg (Proofs.C08.c08_lit 5); CENeg (CEParen (Proofs.C08.c08_lit 5)); CEParen (CENeg (Proofs.C08.c08_lit 5))] ->
+     item_unsupported uc_exec (fun _ => None) [] (Proofs.C08.c08_const e) = false /\
+     match Proofs.C08.parse_leaf8 uc_exec (fun _ => None) [] (Proofs.C08.c08_const e) with
+     | Ok (ItConst c) => cvalue c = Zneg 5
+     | _ => False
+     end) /\
+  item_unsupported uc_exec (fun _ => None) [] (Proofs.C08.c08_const CEOther) = true /\
+  Proofs.C08.parse_leaf8 uc_exec (fun _ => None) [] (Proofs.C08.c08_const CEOther) = Err EConstExprInvalid /\
+  Proofs.C08.parse_leaf8 uc_exec (fun _ => None) [] (Proofs.C08.c08_const (CENeg CEOther)) = Err EConstExprInvalid /\
+  Proofs.C08.parse_leaf8 uc_exec (fun _ => None) [] (Proofs.C08.c08_const (CELit CNotInt)) = Err EConstTypeInvalid.
+Proof. exact Props.C08.C08_const_expr_fixed. Qed.
+Print Assumptions Props.C08.C08_const_expr_fixed.
+Goal let flat := {| a_inner := false; a_meta := MList [lit "serde"] (Some [MPath [lit "flatten"]]) None |} in
+  let tagc := {| a_inner := false; a_meta := MList [lit "serde"] (Some [MNV [lit "tag"] (VStr (lit "t")); MNV [lit "content"] (VStr (lit "c"))]) None |} in
+  let it := IEnum [Proofs.C08.a_typeshare; tagc] (lit "E") []
+                  [{| v_attrs := []; v_ident := lit "V";
+                      v_fields := FNamed [{| f_attrs := [flat]; f_ident := Some (lit "x"); f_ty := Proofs.C08.ty_u8 |}] |}] in
+  item_unsupported uc_exec (fun _ => None) [] it = true /\
+  Proofs.C08.parse_leaf8 uc_exec (fun _ => None) [] it = Err ESerdeFlatten.
+Proof. exact Props.C08.C08_flatten_variant_fixed. Qed.
+Print Assumptions Props.C08.C08_flatten_variant_fixed.
+Goal let it := IStruct [Proofs.C08.a_typeshare] (lit "S") []
+                    (FNamed [{| f_attrs := []; f_ident := Some (lit "a");
+                                f_ty := TPath [] (lit "Vec") [Some (TPath [] (lit "Option") [Some (TPath [] (lit "u64") [])])] |}]) in
+  item_unsupported uc_exec (fun _ => None) [] it = true /\
+  is_ok (Proofs.C08.parse_leaf8 uc_exec (fun _ => None) [] it) = false.
+Proof. exact Props.C08.C08_nonvacuous_witness. Qed.
+Print Assumptions Props.C08.C08_nonvacuous_witness.
